@@ -355,6 +355,20 @@ theorem updateColumns_ok_keys (strict : Bool) (r r' : Reg) (f : Frame)
   obtain ⟨m, hm⟩ := updLoop_registered strict f.cols _ r2 hl c hc
   simp [hm]
 
+/-- a frame that has lost all its columns (with or without rows): a successful update leaves no entry -/
+theorem updateColumns_ok_keys_nocols (strict : Bool) (r r' : Reg) (f : Frame)
+    (h : updateColumns strict r f = (r', none)) (hc : f.cols = []) : keys r' = f.names := by
+  unfold updateColumns at h
+  have hn : f.names = [] := by simp [Frame.names, hc]
+  simp only [hn, hasDup, Bool.false_eq_true, if_false, hc, updLoop] at h
+  by_cases he : f.empty = true
+  · simp only [he, if_true] at h
+    obtain ⟨rfl, _⟩ := Prod.mk.inj h
+    simp [hn, reorder, keys]
+  · simp only [he] at h
+    obtain ⟨rfl, _⟩ := Prod.mk.inj h
+    simp [hn, reorder, keys]
+
 theorem updateColumns_ok_names_nodup (strict : Bool) (r r' : Reg) (f : Frame)
     (h : updateColumns strict r f = (r', none)) : f.names.Nodup := by
   unfold updateColumns at h
@@ -381,7 +395,7 @@ theorem updateColumns_ok_keeps (strict : Bool) (r r' : Reg) (f : Frame)
     validated state is remembered, the register is the one that validation left behind -/
 structure Good (i : Info) : Prop where
   nodup : (keys i.reg).Nodup
-  keysOk : ∀ f0, i.last = some f0 → f0.empty = false → keys i.reg = f0.names
+  keysOk : ∀ f0, i.last = some f0 → (f0.empty = false ∨ f0.cols = []) → keys i.reg = f0.names
 
 theorem checkDataframe_strict (i : Info) (f : Frame) : (checkDataframe i f).1.strict = i.strict := by
   unfold checkDataframe
@@ -405,7 +419,9 @@ theorem checkDataframe_good (i : Info) (f : Frame) (h : Good i) : Good (checkDat
         refine ⟨hnd, ?_⟩
         intro f0 hf0 he
         simp at hf0; subst hf0
-        exact updateColumns_ok_keys _ _ _ _ hu he
+        rcases he with he | he
+        · exact updateColumns_ok_keys _ _ _ _ hu he
+        · exact updateColumns_ok_keys_nocols _ _ _ _ hu he
       | some e =>
         refine ⟨hnd, ?_⟩
         intro f0 hf0; simp at hf0
